@@ -43,3 +43,26 @@ Check (C02.C02_written_file_roundtrip : forall two_pass fp o sizes autosql input
     /\ bb_autosql f i = Ok (Some (match autosql with Some s => s | None => AUTOSQL_BED3 end))
     /\ map (fun c => (ci_name c, ci_id c)) (i_chroms i) = combine (map fst (bruns input)) (seqN 0 (length (bruns input)))
     /\ Forall (fun c => lookup (ci_name c) sizes = Some (ci_len c)) (i_chroms i)).
+
+(* ---- compressed files ---- *)
+From BT Require Import Model.BigWigWriteZ Model.BigBedWriteZ Proofs.BedFileZ Proofs.BedFileZThms.
+Check (C02.C02_model_uncompressed : forall cmp fp o sizes autosql input, o_compress o = false ->
+  bb_write_z cmp fp o sizes autosql input = bb_write fp o sizes autosql input
+  /\ bb_write_multipass_z cmp fp o sizes autosql input = bb_write_multipass fp o sizes autosql input).
+Check (C02.C02_written_file_roundtrip_compressed : forall cmp two_pass fp o sizes autosql input f,
+  bb_write_either_z cmp two_pass fp o sizes autosql input = Ok f -> file_hyps o sizes input f -> ubuf_fits o input ->
+  exists i, read_info f = Ok i
+    /\ (h_ubuf (i_hdr i) = 0 <-> o_compress o = false) /\ h_ubuf (i_hdr i) < U32
+    /\ (forall infl, (o_compress o = true -> forall b, infl (cmp b) = b) -> forall c es, In (c, es) (bruns input) ->
+          exists len, lookup c sizes = Some len /\ bb_interval infl f i c 0 len = Ok es)
+    /\ (Nlen input < U64 -> bb_item_count f i = Ok (Nlen input))
+    /\ bb_autosql f i = Ok (Some (match autosql with Some s => s | None => AUTOSQL_BED3 end))
+    /\ map (fun c => (ci_name c, ci_id c)) (i_chroms i) = combine (map fst (bruns input)) (seqN 0 (length (bruns input)))
+    /\ Forall (fun c => lookup (ci_name c) sizes = Some (ci_len c)) (i_chroms i)).
+Check (C02.C02_written_file_buf_size_compressed : forall cmp two_pass fp o sizes autosql input f,
+  bb_write_either_z cmp two_pass fp o sizes autosql input = Ok f -> file_hyps o sizes input f -> ubuf_fits o input ->
+  exists i, read_info f = Ok i /\ (o_compress o = true ->
+    forall c es blk, In (c, es) (bruns input) -> In blk (sections_loop (o_ips o) [] es) ->
+      Nlen (flat_map (entry_bytes 0) blk) <= h_ubuf (i_hdr i))).
+Check (C02.C02_ubuf_fits_of_bounds : forall o input R, 1 <= o_ips o -> o_ips o * (13 + R) < U32 -> 32 * o_ips o < U32 ->
+  Forall (fun it : bitem => Nlen (e_rest (snd it)) <= R) input -> ubuf_fits o input).
